@@ -66,7 +66,6 @@ def _(c):
 def _(c):
     c.prop('C02', 'C07')
     c.types(conn=CI, message=MSG)
-    c.raises('RuntimeError', when='self.name is None and message.obj.type is not None', exact=False)
     c.ensures('old(self.name) is None or self.name == old(self.name)', 'given_name_kept')
     c.ensures('message.obj.type is not None or self.name == old(self.name)', 'undecorated_when_interface_unknown')
     c.modifies('self.name')
@@ -76,7 +75,6 @@ def _(c):
 def _(c):
     c.prop('C02', 'C07')
     c.types(conn=CI, message=MSG)
-    c.raises('RuntimeError', when='message.obj.type is not None', exact=False)
     c.ensures('old(self.name) is None or self.name == old(self.name)', 'given_name_kept')
     c.modifies('self.name', 'self.labels', 'new')
 
@@ -85,7 +83,6 @@ def _(c):
 def _(c):
     c.prop('C02', 'C07')
     c.types(conn=CI, message=MSG)
-    c.raises('RuntimeError', when='message.obj.type is not None', exact=False)
     c.ensures('old(self.type) is None or self.type == old(self.type)', 'given_type_kept')
     c.modifies('self.name', 'self.type')
 
@@ -125,7 +122,6 @@ def _(c):
     c.let('creates', 'isinstance(self.obj, UnresolvedObject) and self.is_new and self.obj.type is not None and self.obj.id > 1 and '
                      'not (self.obj.id in conn.db and conn.db[self.obj.id][len(conn.db[self.obj.id]) - 1].alive and '
                      '((self.obj.type == "wl_registry" and self.obj.id == 2) or not server_range(self.obj.id)))')
-    c.raises('RuntimeError', when='self.name is None and message.obj.type is not None', exact=False)
     c.ensures('inv_conn(conn)', 'invariant_kept')
     c.ensures('unres or self.obj is old(self.obj)', 'resolved_mentions_are_kept')
     c.requires('probe() is None or (allocated(probe()) and foreign(probe(), conn))', 'probe_list_is_foreign')
@@ -153,7 +149,6 @@ def _(c):
     c.prop('C02')
     c.types(conn=CI, message=MSG)
     c.requires('self.values is None or all(isinstance(self.values[k], Int) for k in range(0, len(self.values)))', 'array_elements_are_integers')
-    c.raises('RuntimeError', when='message.obj.type is not None', exact=False)
     c.modifies('self.name', 'when(self.values is not None, field(core.wl.arg.Arg.Base.name))', 'when(self.values is not None, field(core.wl.arg.Arg.Int.labels))', 'new')
     lp = c.loop(0)
     lp.modifies('field(core.wl.arg.Arg.Base.name)', 'field(core.wl.arg.Arg.Int.labels)', 'new')
